@@ -32,6 +32,13 @@ CLAIMED = {
          'only after every std predicate named by the property is false, and that Host/Authorization/Cookie/Proxy-Authorization are never forwarded; same obligations for sync and async.'),
    note='Undecided: mask constants (CGNAT, ULA, link-local) and exotic numeric notations are counted, not interpreted. Trusted base: ' + TRUSTED + '; std::net predicate semantics',
    design='5/C27'),
+ 'C23': dict(
+   technique='result-discipline analysis over the resolved call graph (callback-parametric may-cancel set, forward def-use consumer classification) + path rule on the checkpoint',
+   text=('Decides that no call site of a function that may return the cancellation error drops, converts or stores that Result: every site is '
+         'classified (?, tail, inspected-with-Err-propagating arm, or converted) and converted sites are reported; Context::check_progress returns only '
+         'Ok or Err(OperationCancelled) under the documented guards; literal progress arguments satisfy 1 <= step <= total.'),
+   note='Undecided: progress values computed in loops (positive/increasing). Closures whose `?` returns into std adaptors are assumed to be propagated by the adaptor. Trusted base: ' + TRUSTED,
+   design='5/C23'),
 }
 
 NA_REASONS = {
